@@ -4,12 +4,22 @@
    the File Identifier Descriptor length is a multiple of 4 that covers header + name; ceiling_div
    covers.  Everything else the property lists (anchors, partition bounds, information lengths, tree,
    names, symlink targets, file bytes) is decided on generated UDF images by the independent
-   ECMA-167 reader, which verifies every tag it passes; that part is sampled, not proved. *)
+   ECMA-167 reader, which verifies every tag it passes; that part is sampled, not proved.
+   Model/Udf.v is a byte-level hand model of UDFTag, the short/long allocation descriptors, the ICB
+   tag, the File Identifier Descriptor and the File Entry (header + allocation descriptors) of
+   udf.py, tied to /repo by udfleaf.py: every recorded tag / FID / File Entry VERIFIES for a reader
+   that recomputes the checksum and the CRC independently, parse . record is the identity, the
+   allocation descriptors of a file of ANY length sum to the length, chain without gaps and all but
+   the last are whole blocks.  Lemmas that are false of the faithful model are stated as _refuted
+   (a FID with implementation-use bytes is longer than length() says; parse drops the extent type of
+   a short_ad): both concern descriptors of foreign images, pycdlib never writes such. *)
 From Coq Require Import ZArith List Bool Lia.
 From PV.Base Require Import Prim.
 From PV.Gen Require Import GenConst GenFun.
 From PV.Model Require Import Checksums Fid.
 From PV.Proofs Require Import ChecksumsProofs ChecksumsArithProofs FidProofs.
+From PV.Model Require Udf.
+From PV.Proofs Require UdfProofs UdfFidProofs UdfFeProofs.
 Import ListNotations.
 Local Open Scope Z_scope.
 
@@ -63,3 +73,44 @@ Qed.
 
 Theorem C10_ceiling_div_covers : forall a b, 0 < b -> ceiling_div a b * b >= a /\ (ceiling_div a b - 1) * b < a.
 Proof. exact ceiling_div_bounds. Qed.
+
+(* ---- Model/Udf.v -------------------------------------------------------------------------------- *)
+Theorem C10_new_tag_verifies : forall ident serial loc cb r,
+  bytes cb -> Udf.tag_record (Udf.mk_utag ident 2 serial loc (-1)) cb = Some r -> Udf.verify_tag (r ++ cb) = true.
+Proof. exact UdfProofs.tag_new_record_verifies. Qed.
+
+Theorem C10_tag_roundtrip : forall t cb r rest,
+  Udf.tag_record t cb = Some r -> (Udf.tg_version t = 2 \/ Udf.tg_version t = 3) -> Udf.tg_crclen t = zlen cb ->
+  Udf.tag_parse (r ++ cb ++ rest) (Udf.tg_location t) = Some t.
+Proof. exact UdfProofs.tag_roundtrip_exact. Qed.
+
+Theorem C10_tag_checksum_detects_any_single_byte_change : forall hdr i v,
+  length hdr = 16%nat -> Udf.tag_csum_ok hdr = true ->
+  (i < 16)%nat -> i <> 4%nat -> 0 <= nth i hdr 0 < 256 -> 0 <= v < 256 -> v <> nth i hdr 0 ->
+  Udf.tag_csum_ok (set_nth i v hdr) = false.
+Proof. exact UdfProofs.tag_csum_detects_single_byte. Qed.
+
+Theorem C10_fid_record_verifies : forall f b, Udf.fid_record f = Some b ->
+  bytes (Udf.fd_impl_use f) -> bytes (Udf.fd_fi f) -> bytes (Udf.la_impl (Udf.fd_icb f)) ->
+  (Udf.tg_crclen (Udf.fd_tag f) < 0 \/ Udf.tg_crclen (Udf.fd_tag f) <= zlen b - 16) ->
+  Udf.verify_tag b = true /\
+  (Udf.tg_crclen (Udf.fd_tag f) < 0 -> nth 10 b 0 + 256 * nth 11 b 0 = zlen b - 16).
+Proof. exact UdfFidProofs.fid_record_verifies. Qed.
+
+Theorem C10_fid_record_length_refuted :
+  exists f b, UdfFidProofs.fid_lens_ok f /\ Udf.fid_record f = Some b /\ zlen b = 48 /\ udf_fid_length (zlen (Udf.fd_fi f)) = 44.
+Proof. exact UdfFidProofs.fid_length_is_method_refuted. Qed.
+
+Theorem C10_file_entry_extents_sum_to_length : forall len, 0 <= len -> Checksums.zsum (Udf.fe_ad_lengths len) = len.
+Proof. exact UdfFeProofs.fe_ad_lengths_sum. Qed.
+
+Theorem C10_file_entry_extents_whole_blocks : forall len,
+  Forall (fun l => l = Udf.UDF_MAX_AD /\ l mod 2048 = 0) (removelast (Udf.fe_ad_lengths len)) /\
+  Forall (fun l => 0 < l <= Udf.UDF_MAX_AD) (Udf.fe_ad_lengths len) /\
+  zlen (Udf.fe_ad_lengths len) = ceiling_div (Z.max len 0) Udf.UDF_MAX_AD.
+Proof. exact UdfFeProofs.fe_ad_lengths_all_but_last. Qed.
+
+Theorem C10_file_entry_verifies : forall e b, Udf.fe_record e = Some b -> UdfFeProofs.fe_zbytes e ->
+  (Udf.tg_crclen (Udf.fe_tag e) < 0 \/ Udf.tg_crclen (Udf.fe_tag e) <= zlen b - 16) ->
+  Udf.verify_tag b = true.
+Proof. exact UdfFeProofs.fe_record_verifies. Qed.
